@@ -342,6 +342,11 @@ func genConfig(r rng, seed uint64, id string, merge bool) *sdl.Program {
 			}
 			t.Config = append(t.Config, cf)
 		}
+		if !merge && r.p(0.3) {
+			// a holder with an injection point next to its configuration fields: its properties
+			// come in two groups (component, configuration) whose relative order is not fixed
+			t.Points = append(t.Points, &sdl.Point{Field: "F0", Kind: sdl.KIfaces, Iface: 0, Sel: sdl.SelType, Optional: true})
+		}
 		if !merge && r.p(0.15) {
 			// two absent keys in one holder: the first falls back to its default, the second has
 			// none (state must not travel from one placeholder to the next)
